@@ -182,6 +182,26 @@ func gen(seed uint64, tier string) {
 			fmt.Fprintf(out, "rt N %s\n", vproto.GeomToks(geom.LineString(ps)))
 		}
 	}
+	// size thresholds at exactly one nesting level: 63..65, 127..130 (a 2 KiB / 4 KiB scratch buffer holds
+	// 128 / 256 points), 255..257, 2047..2049 — as a line string, multipoint, ring, member of a Multi*, in a collection
+	thr := []int{63, 64, 65, 127, 128, 129, 130, 255, 256, 257, 511, 512, 513}
+	if tier == "thorough" {
+		thr = append(thr, 2047, 2048, 2049, 4095, 4096, 4097)
+	}
+	for i, k := range thr {
+		ps := make([]geom.Point, k)
+		for j := range ps {
+			ps[j] = geom.Point{X: float64(j), Y: coord(r)}
+		}
+		emit(geom.LineString(ps), i)
+		emit(geom.MultiPoint(ps), i+1)
+		emit(geom.Polygon{ps[:3], ps}, i)
+		emit(geom.MultiLineString{ps, ps[:2]}, i+1)
+		emit(geom.MultiPolygon{{ps[:4]}, {ps[:4], ps}}, i)
+		emit(geom.GeometryCollection{geom.Point{X: 1, Y: 2}, geom.LineString(ps)}, i+1)
+	}
+	// shared-backing inputs, encoded twice, compared before/after, overwritten in place and encoded again
+	genAlias(out, r, n/8)
 	for i := 0; i < n; i++ {
 		emit(genGeom(r, 4), i)
 	}
@@ -289,6 +309,8 @@ func impl() {
 				for j := range kept { // read only now, after every later call has happened
 					res += " " + "x" + hex.EncodeToString(kept[j]) + " h" + hexes[j]
 				}
+			case "alias":
+				res = implAlias(p)
 			case "rdrt":
 				kind := p.Next()
 				o := bo(p.Next())
